@@ -30,6 +30,7 @@ INVARIANT OnlySelected
 INVARIANT TruncationRefused
 INVARIANT CorruptionContained
 INVARIANT HeaderGuards
+INVARIANT DomainErrorsRefused
 INVARIANT DeviationExplained
 INVARIANT EmitRow
 INVARIANT EmitDeviation
@@ -321,7 +322,7 @@ def scene_worker_(item):
 
     out = {"idx": idx, "viol": [], "diag": [], "scenes": 0, "encodings": 0, "rows_hit": 0, "faults": 0,
            "trunc_points": 0, "flips": 0, "foreign": 0, "unmatched": 0, "agree": 0, "model_cmp": 0,
-           "known_like": 0, "nodes_cmp": 0, "sample": None, "dropped": None}
+           "known_like": 0, "nodes_cmp": 0, "sample": None, "dropped": None, "sweep": 0, "sweep_refused": 0, "sweep_cmp": 0}
 
     def viol(msg, known=None, **kw):
         d = {"property": "C18", "part": "scene", "program": text, "message": msg}
@@ -393,8 +394,11 @@ def scene_worker_(item):
             viol(f"decoder consumed {stream.tell()} of {len(data)} bytes", asg=row["asg"], data=data.hex())
             continue
         # the scene the spec derives for this sample
-        o_real = [enc_out(v) for v in outs_of(s2, outnames)]
-        if o_real != row["outs"]:
+        # (results of true division / float functions are terms in the spec: compared real vs real above)
+        cmp_i = [i for i, n in enumerate(prog["outs"]) if nodes[n - 1]["k"] not in gen_codec.OPAQUE_KINDS]
+        o_all = outs_of(s2, outnames)
+        o_real = [enc_out(o_all[i]) for i in cmp_i]
+        if o_real != [row["outs"][i] for i in cmp_i]:
             viol("decoded parameters / properties differ from the spec's scene for this sample",
                  asg=row["asg"], observed=o_real, expected=row["outs"], data=data.hex())
             continue
@@ -469,6 +473,39 @@ def scene_worker_(item):
                     known = "corrupt-index-exception"
                     out["known_like"] += 1
                 viol(f"corrupted byte {k} -> {b}: decoding failed with {r} instead of SerializationError", known, **rep)
+        # ---- (b') programs with restricted-domain operations: EVERY value of every byte of the
+        # integer fields and of the sign / exponent bytes of the float fields (thorough: of every
+        # body byte); the only outcomes allowed are a scene or SerializationError
+        if opts.get("sweep"):
+            pos, off = [], 10
+            for n, fb in row["fields"]:
+                L = len(fb)
+                if opts["sweep"] == "all" or nodes[n - 1]["k"] != "tleaf":
+                    pos += list(range(off, off + L))
+                elif L == 8:
+                    pos += [off + 6, off + 7]
+                off += L
+            tab_s = {e[0]: e[1] for e in row.get("sweep") or []}
+            for k in pos:
+                for b in range(256):
+                    if b == data[k]:
+                        continue
+                    out["sweep"] += 1
+                    cls, r = decode(sc, data[:k] + bytes([b]) + data[k + 1:])
+                    if k in tab_s:
+                        out["sweep_cmp"] += 1
+                        spec = tab_s[k][str(b)] if isinstance(tab_s[k], dict) else tab_s[k][b]  # 0 scene of the program, 1 refused, 3 decodable but outside the support
+                        if (spec == 1 and cls == "scene") or (spec == 0 and cls != "scene"):
+                            out["diag"].append({"what": "sweep outcome differs from Codec.tla's class", "fault": ["flip", k, b],
+                                                "spec": spec, "observed": [cls, str(r)[:80]]})
+                    if cls == "scene":
+                        out["faults"] += 1
+                    elif cls == "SerializationError":
+                        out["faults"] += 1
+                        out["sweep_refused"] += 1
+                    else:
+                        viol(f"corrupted byte {k} -> {b}: decoding failed with {r} instead of SerializationError", None,
+                             data=data.hex(), flip_at=k, flip_to=b, observed=[cls, str(r)[:200]], asg=row["asg"])
         # ---- (c) foreign decoders: another program, other compile options
         if opts.get("foreign"):
             if foreign is None:
@@ -544,9 +581,9 @@ def codec_part(ck, tier):
         nrand = int(os.environ["C18_NRAND"])
         leaves = leaves[: int(os.environ.get("C18_NLEAVES", len(leaves)))]
     cand, dropped = gen_codec.generate(seed() * 104729 + 18, nrand, leaves, max_rows=max_rows)
-    cand += gen_codec.typed_programs(tier)
+    cand += gen_codec.typed_programs(tier) + gen_codec.domain_programs(tier)
     if os.environ.get("C18_ONLY_TYPED") == "1":  # debugging aid
-        cand = gen_codec.typed_programs(tier)
+        cand = gen_codec.typed_programs(tier) + gen_codec.domain_programs(tier)
     ck.cov["dropped_by_generator"] += dropped
 
     items, cprogs = [], []
@@ -607,12 +644,13 @@ def codec_part(ck, tier):
 
     work = []
     for i, (text, prog, info) in enumerate(items):
-        opts = {"foreign": (i % 3 == 0) or tier != "quick", "uniform_values": info.get("uniform")}
+        opts = {"foreign": (i % 3 == 0) or tier != "quick", "uniform_values": info.get("uniform"),
+                "sweep": ("all" if tier != "quick" else "rep") if info.get("sweep") else None}
         work.append((i, text, prog, cprogs[i], info, rows[i], devs[i], opts))
     results = par_map(scene_worker, work)
 
     tot = {k: 0 for k in ("scenes", "encodings", "rows_hit", "faults", "trunc_points", "flips", "foreign",
-                          "unmatched", "agree", "model_cmp", "nodes_cmp")}
+                          "unmatched", "agree", "model_cmp", "nodes_cmp", "sweep", "sweep_refused", "sweep_cmp")}
     ndiag = 0
     for r in results:
         text = items[r["idx"]][0]
